@@ -32,6 +32,7 @@ class Scn:
     min_returns: int = 1
     must_raise: bool = False
     notes: str = ""
+    waive: tuple = ()            # (substring of an identification context, reason): size identifications that need no guard
 
 
 SCENARIOS: list[Scn] = []
